@@ -1,5 +1,5 @@
 """Build, run and compare: the shared machinery of every check (DESIGN.md sections 2, 4, 5)."""
-import fcntl, hashlib, json, os, re, shutil, signal, subprocess, sys, time
+import time, fcntl, hashlib, json, os, re, shutil, signal, subprocess, sys, time
 
 VERIF = os.path.dirname(os.path.dirname(os.path.abspath(__file__)))
 WORK = os.path.join(VERIF, "work")
@@ -73,6 +73,10 @@ def build_impl(repo, need_binary=False, log=None):
             shutil.copy(lock_src, lock_dst)
         env = dict(ENV, CALC_REPO=os.path.abspath(repo), CARGO_TARGET_DIR=os.path.join(WORK, "target-" + repo_key(repo)))
         rc, out = sh(["cargo", "build", "--release", "--quiet"], cwd=HARNESS, env=env, timeout=1200)
+        if rc != 0 and "error[E" not in out and "could not compile" not in out:
+            # not a compile error of the tree (e.g. a transient lock on the cargo cache): try once more
+            time.sleep(3)
+            rc, out = sh(["cargo", "build", "--release", "--quiet"], cwd=HARNESS, env=env, timeout=1200)
         if rc != 0:
             raise InfraError("the harness does not build against %s (does the tree compile?)\n%s" % (repo, out[-3000:]))
         if need_binary:
